@@ -24,7 +24,7 @@ from .c07 import dom_digest, default_types_digest, OTHER_T, OTHER_U
 
 ID = "C17"
 RULE = ("domain elements: predicates p,q,r; function f; constant k; actions a1 (uses p,k), a2 (uses q,f,r); problem "
-        "elements: objects o1,o2; facts (p o1), (p o2), (q o1 o2), (= (f) 3); goals (p o2), (r); agents 2 (quick) / 3 (thorough: "
+        "elements: objects o1,o2 (plus u0 - object, first in every file); facts (p o1), (p o2), (q o1 o2), (= (f) 3); goals (p o2), (r); agents 2 (quick) / 3 (thorough: "
         "domain splits only); every assignment of each element to a non-empty subset of agents that keeps each file "
         "self-contained; every permutation of the discovered files; add_dummy_actions on/off. one case = one domain split "
         "(with all orders, both dummy settings, and a rotating problem split). non-trivial = a split in which some "
@@ -115,7 +115,8 @@ def domain_file(where, ag):
 
 
 def problem_file(pw, ag):
-    objs = " ".join(f"{o} - {t}" for o, t in OBJ.items() if ag in pw[o])
+    # u0: an object of the root type, declared first in every agent's file (before the typed objects)
+    objs = "u0 - object " + " ".join(f"{o} - {t}" for o, t in OBJ.items() if ag in pw[o])
     init = " ".join(f for f in FACTS if ag in pw[f])
     goals = " ".join(g for g in GOALS if ag in pw[g])
     return f"(define (problem madp) (:domain mad)\n(:objects {objs})\n(:init {init})\n(:goal (and {goals})))\n"
@@ -169,7 +170,7 @@ def check_case(case):
         "functions": {"f": []},
         "actions": {"a1": [["?x", "t1"]], "a2": [["?x", "t1"], ["?y", "t2"]]},
     }
-    want_problem = {"objects": dict(OBJ), "atoms": {("p", "o1"), ("p", "o2"), ("q", "o1", "o2")}, "fluents": {("f",): 3},
+    want_problem = {"objects": dict(OBJ, u0="object"), "atoms": {("p", "o1"), ("p", "o2"), ("q", "o1", "o2")}, "fluents": {("f",): 3},
                     "goals": {("p", "o2"), ("r",)}}
     first_vocab = None
     for perm in permutations(range(n)):
@@ -219,8 +220,9 @@ def check_case(case):
                 first_vocab = v
             # problems
             if not dummy:
+                pconv = MultiAgentProblemsConverter(d, "prob")
                 with GlobOrder(perm):
-                    prob = guard(lambda: MultiAgentProblemsConverter(d, "prob").combine_problems(path))
+                    prob = guard(lambda: pconv.combine_problems(path))
                 r.count("transitions")
                 if isinstance(prob, Raised):
                     r.fail("combine-problems-raised", f"{label} problem split {case['pwhere']}: combine_problems raised "
@@ -242,6 +244,19 @@ def check_case(case):
                 if bad:
                     r.fail("problem-union", f"{label} problem split {case['pwhere']}: combined problem is not the union: {bad}",
                            str(want_problem), bad, tags=tags)
+                    return r
+                # the same converter asked again answers as it did the first time
+                with GlobOrder(perm):
+                    prob_again = guard(lambda: pconv.combine_problems(path))
+                ob_again = guard(observe_problem, prob_again) if not isinstance(prob_again, Raised) else prob_again
+                n_again = sum(len(s) for s in prob_again.initial_state_predicates.values()) \
+                    if not isinstance(prob_again, Raised) else -1
+                r.count("transitions")
+                if isinstance(ob_again, Raised) or any(ob_again[k] != ob[k] for k in ("objects", "atoms", "fluents")) \
+                        or sorted(ob_again["goals"]) != sorted(ob["goals"]) or n_again != n_facts:
+                    r.fail("converter-reuse", f"{label} problem split {case['pwhere']}: a second combine_problems() on the same "
+                           f"converter gives {ob_again} ({n_again} stored facts), the first gave {ob} ({n_facts})", str(ob),
+                           str(ob_again)[:300], tags=tags + ["problems-converter"])
                     return r
                 text = guard(lambda: ProblemExporter().extract_problem(prob))
                 re2 = guard(lambda: observe_problem(parse_problem(text, re))) if not isinstance(text, Raised) else text
